@@ -21,6 +21,7 @@ from .common import cbool
 
 THEOREMS = [
     "model_meets_spec", "counts_correct", "reject_iff", "reject_reason_sound", "positional_given",
+    "reject_depends_on_definedness_only", "must_reject_depends_on_definedness_only",
     "no_reject_when_off", "callback_once_in_order", "call_styles_equal", "request_carries_bound_values",
     "rpc_binds_like_python_partial", "rpc_reject_refuted",
 ]
